@@ -198,6 +198,7 @@ type ssoSend struct {
 	Host     string
 	Extra    []string // extra key/value pairs
 	Method   string
+	RawTail  string // appended verbatim (behind an ampersand) to the query resp. the form body: pairs no encoder would write
 
 	SentValue    string                     // the SAMLRequest parameter value as sent
 	SentEncoding string                     // the SAMLEncoding parameter as sent
@@ -229,6 +230,9 @@ func (s *ssoSend) do(e *env.Env) (*env.Call, *spsim.RedirectMsg) {
 		}
 		kv = append(kv, s.Extra...)
 		body := spsim.FormBody(kv...)
+		if s.RawTail != "" {
+			body += "&" + s.RawTail
+		}
 		// a form arrives in one piece or in pieces (decided by its length, so that a case stays reproducible)
 		return e.Do(env.Req{Method: "POST", Path: path, Body: body, Host: s.Host, Headers: s.hdr, Chunk: []int{0, 1460, 97}[len(body)%3]}), nil
 	}
@@ -255,6 +259,9 @@ func (s *ssoSend) do(e *env.Env) (*env.Call, *spsim.RedirectMsg) {
 	q := m.RawQuery()
 	for i := 0; i+1 < len(s.Extra); i += 2 {
 		q += "&" + url.QueryEscape(s.Extra[i]) + "=" + url.QueryEscape(s.Extra[i+1])
+	}
+	if s.RawTail != "" {
+		q += "&" + s.RawTail
 	}
 	meth := s.Method
 	if meth == "" {
